@@ -516,7 +516,7 @@ def generate_scores(ctx):
             status[name] = None
         except Exception as e:                                   # fail-closed
             status[name] = f'{type(e).__name__}: {e}'
-            out += f'\n(* {name}: UNSUPPORTED {str(e).replace("*)", "* )")} *)\n'
+            out += f'\n(* {name}: UNSUPPORTED {P.comment_safe(e)} *)\n'
             if name.startswith('gaussian._transform'):
                 out += 'Section GmScores.\n  Variables label V S : Type.\n  Variable label_eqb : label -> label -> bool.\n'
             else:
@@ -533,13 +533,13 @@ def generate_sample(ctx):
     except Exception as e:
         status['gaussian._get_normal_samples+sample'] = f'{type(e).__name__}: {e}'
         out = ('From Coq Require Import List Bool Arith.\nImport ListNotations.\n'
-               f'(* sample: UNSUPPORTED {str(e).replace("*)", "* )")} *)\n')
+               f'(* sample: UNSUPPORTED {P.comment_safe(e)} *)\n')
     try:
         out += translate_fit()
         status['gaussian._fit_columns+fit'] = None
     except Exception as e:
         status['gaussian._fit_columns+fit'] = f'{type(e).__name__}: {e}'
-        out += f'(* fit: UNSUPPORTED {str(e).replace("*)", "* )")} *)\n'
+        out += f'(* fit: UNSUPPORTED {P.comment_safe(e)} *)\n'
     ctx.write('Gen_gm_sample.v', out)
     return status
 
